@@ -405,10 +405,10 @@ PROPS = {
     "C09": {
         "streams": ["alloc", "allocf4"],
         "custom": c09_run,
-        "rule": "the harness runs under a counting global allocator (armed only around the decode call; self-tested on every run). For every catalogue type (~330, all sequence/map/set/list/heap/deque/string/bit-sequence/byte-buffer kinds and their nestings, derived types): valid encodings, and encodings in which each byte position in turn (every position of short encodings, 8 random positions of longer ones) is overwritten by a hostile compact count (2^16, 2^20, 2^24, 2^28, 2^30-1, 2^30, 2^32-2, 2^32-1) followed by 0, <64, 4096, 20000 or 65536 bytes of plausible payload (the tail of the valid encoding repeated, lightly perturbed); each decoded from a slice, a custom input with remaining_len = None, IoReader<Cursor> and the shared buffer (decode_from_bytes). Oracles on the implementation: largest single allocation <= max(16 KiB, 192 x input bytes) + 8 KiB + size_of::<T>(); peak live bytes <= 8 x 16 KiB + 192 x input bytes + 8 KiB + size_of::<T>(); no panic; a request above 2 GiB is refused, and the resulting abort is attributed to the request being executed. Outcomes of inputs of at most 80 bytes are also compared with the model. non-trivial = distinct request whose model answer is not `err`",
+        "rule": "the harness runs under a counting global allocator (armed only around the decode call; self-tested on every run). For every catalogue type (~330, all sequence/map/set/list/heap/deque/string/bit-sequence/byte-buffer kinds and their nestings, derived types): valid encodings, and encodings in which each byte position in turn (every position of short encodings, 8 random positions of longer ones) is overwritten by a hostile compact count (2^16, 2^20, 2^24, 2^28, 2^30-1, 2^30, 2^32-2, 2^32-1) followed by 0, <64, 4096, 20000 or 65536 bytes of plausible payload (the tail of the valid encoding repeated, lightly perturbed); each decoded from a slice, a custom input with remaining_len = None, IoReader<Cursor> and the shared buffer (decode_from_bytes). Oracles on the implementation: largest single allocation <= max(64 KiB, 192 x input bytes) + 8 KiB + size_of::<T>(); peak live bytes <= 8 x 64 KiB + 192 x input bytes + 8 KiB + size_of::<T>() (the allowance is deliberately wider than the crate's 16 KiB constant: the property demands a FIXED allowance, not this value); no panic; a request above 2 GiB is refused, and the resulting abort is attributed to the request being executed. Outcomes of inputs of at most 80 bytes are also compared with the model. non-trivial = distinct request whose model answer is not `err`",
         "level_text": "Proved in Lean on the model's decoder programs, for every claimed count up to 2^32-1 and every element size: each speculative reservation of the chunked vector readers (item-by-item and bulk) is at most MAX_PREALLOCATION = 16 KiB and is made one chunk at a time, the next only after the previous chunk's items were decoded from real input; a primitive vector whose count promises more bytes than are present is rejected - over the slice before anything is reserved, and over ANY faithful input incl. those that cannot report their remaining length. For the decoded value: every well-formed value of a `productive` type (every sequence element type consumes >= 1 input byte per element - decidable on the descriptor) holds at most memRatio(ty) heap bytes per byte of its encoding plus the fixed Box pointees (held_le_encoding_partial, structural induction over all types incl. maps, sets, bit sequences), hence per byte CONSUMED by a successful decode (held_le_consumed_partial). The statement without `productive` is proved FALSE (unproductive_unbounded: n*size_of bytes held from <= 5 input bytes for every n < 2^32) - that is finding F4. The allocation behaviour of the real code (std collections, from_iter for maps/sets/lists/heaps, String, BitVec, Bytes) is outside the model and is MEASURED, not proved: the alloc stream bounds single requests and peak live memory under a counting allocator on hostile counts at every position.",
         "level_note": "Partial: the linear bound on TOTAL heap use is measured on the implementation (counting allocator), not proved - Vec growth, BTreeMap nodes and allocator behaviour are std's. Known finding F4 (zero-width element types: LinkedList<()>, Vec of an all-skipped struct) is reported as KNOWN-FINDING, matched by type; any other breach of the bound is a violation.",
         "trusted_base": COMMON_TB + ["the harness's counting #[global_allocator] (self-tested each run); std collections' allocation behaviour is measured, not modelled"],
-        "assumptions": ["allocation bound constants: 192 bytes of memory per input byte, 16 KiB preallocation per nesting level (8 levels), 8 KiB slack"],
+        "assumptions": ["allocation bound constants: 192 bytes of memory per input byte, 64 KiB fixed allowance per nesting level (8 levels), 8 KiB slack"],
     },
 }
